@@ -89,15 +89,32 @@ pub fn quote(bank: &Bank, pool: &Pubkey, oracle: &Pubkey, supplied: &[Pubkey], a
         arrays[n] = tick_array_facade(bank, &pda, start);
         n += 1;
     }
+    // ... and, while they exist on chain, up to three more arrays BEHIND the start (callers of the SDK fetch arrays on both sides of
+    // the price): they cannot change the quote of this swap, but the sequence then has up to six slots in use
+    let in_window = n;
+    for k in 1..=3 {
+        if n >= 6 {
+            break;
+        }
+        let start = s0 - dir * k * span;
+        let pda = Pubkey::find_program_address(&[b"tick_array", pool.as_ref(), start.to_string().as_bytes()], &whirlpool::ID).0;
+        match bank.accts.get(&pda) {
+            Some(a) if a.owner == whirlpool::ID && a.data.len() >= 8 => {
+                arrays[n] = tick_array_facade(bank, &pda, start);
+                n += 1;
+            }
+            _ => break,
+        }
+    }
     let info = oracle_info(bank, oracle);
     let r = std::panic::catch_unwind(std::panic::AssertUnwindSafe(|| {
         let seq = core_sdk::TickArraySequence::new(arrays, wp.tick_spacing)?;
         core_sdk::compute_swap(amount, limit, wp, seq, a_to_b, exact_in, ts, info)
     }));
     match r {
-        Ok(Ok(s)) => json!({"present": true, "ok": true, "a": nu(s.token_a as u128), "b": nu(s.token_b as u128), "fee": nu(s.trade_fee as u128), "err": "", "arrays": n}),
-        Ok(Err(e)) => json!({"present": true, "ok": false, "a": 0, "b": 0, "fee": 0, "err": e, "arrays": n}),
-        Err(_) => json!({"present": true, "ok": false, "a": 0, "b": 0, "fee": 0, "err": "panic", "arrays": n}),
+        Ok(Ok(s)) => json!({"present": true, "ok": true, "a": nu(s.token_a as u128), "b": nu(s.token_b as u128), "fee": nu(s.trade_fee as u128), "err": "", "arrays": in_window, "slots": n}),
+        Ok(Err(e)) => json!({"present": true, "ok": false, "a": 0, "b": 0, "fee": 0, "err": e, "arrays": in_window, "slots": n}),
+        Err(_) => json!({"present": true, "ok": false, "a": 0, "b": 0, "fee": 0, "err": "panic", "arrays": in_window, "slots": n}),
     }
 }
 
@@ -130,10 +147,27 @@ pub fn quote_user_level(bank: &Bank, pool: &Pubkey, oracle: &Pubkey, supplied: &
             None => break,
         }
     }
+    // (as in `quote`: up to three more existing arrays behind the start)
+    if !fs.is_empty() {
+        for k in 1..=3 {
+            let start = s0 - dir * k * span;
+            let pda = Pubkey::find_program_address(&[b"tick_array", pool.as_ref(), start.to_string().as_bytes()], &whirlpool::ID).0;
+            match bank.accts.get(&pda) {
+                Some(a) if a.owner == whirlpool::ID && a.data.len() >= 8 => match tick_array_facade(bank, &pda, start) {
+                    Some(f) => fs.push(f),
+                    None => break,
+                },
+                _ => break,
+            }
+        }
+    }
     let tas = match fs.len() {
         1 => core_sdk::TickArrays::One(fs[0]),
         2 => core_sdk::TickArrays::Two(fs[0], fs[1]),
         3 => core_sdk::TickArrays::Three(fs[0], fs[1], fs[2]),
+        4 => core_sdk::TickArrays::Four(fs[0], fs[1], fs[2], fs[3]),
+        5 => core_sdk::TickArrays::Five(fs[0], fs[1], fs[2], fs[3], fs[4]),
+        6 => core_sdk::TickArrays::Six(fs[0], fs[1], fs[2], fs[3], fs[4], fs[5]),
         _ => return json!({"present": false}),
     };
     let orc = oracle_info(bank, oracle).map(|i| {
